@@ -124,6 +124,24 @@ def replay_file(chk, path, relevant, signature):
     return chk.finish()
 
 
+def focus_phase(chk, relevant, signature, cfg_name, max_ops, sample, schema="pk_idx_b", key=None):
+    """An extra exploration from a dedicated generating config of MC_Relational.tla (e.g. Gen_TxnFocus.cfg): every
+    explored transition (or a stratified sample) replayed and judged like the standard phase. -> stats"""
+    cfg = vlib.scratch() + "/" + cfg_name.replace(".cfg", "_%d.cfg" % max_ops)
+    open(cfg, "w").write(open(os.path.join(vlib.SPEC, cfg_name)).read().replace("MaxOps = 8", "MaxOps = %d" % max_ops))
+    gen = vlib.tlc_emit("MC_Relational.tla", cfg, timeout=2400)
+    cases = gen["emitted"]
+    total = len(cases)
+    rng = random.Random(chk.seed)
+    if sample and len(cases) > sample:
+        cases = vlib.stratified_sample(cases, key or (lambda c: tuple(h["op"]["k"] for h in c["hist"][2:])), sample, rng)
+    chk.replay_args = {"schema": schema, "config_ops": None, "reopen_ops": None}
+    res = replay(chk, cases, schema=schema)
+    st = judge(chk, res, relevant, signature)
+    return {"generated": total, "replayed": len(cases), "conforming": st["conforming"], "abandoned": st["abandoned_prefix_diverged"],
+            "divergence_signatures": st["divergences"], "tlc": gen["stats"]}
+
+
 def standard(chk, relevant, signature, focus=None, with_txn=False, with_reopen=True, schema="pk", config_ops=None,
              reopen_ops=None, quick=(3, 3500), thorough=(4, 60000), walks_quick=(40, 25), walks_thorough=(600, 40), extra_assumptions=(),
              weighted_walks=False):
